@@ -69,6 +69,11 @@ def run(ctx):
     ctx.rule("R-PANIC", "end-of-number-space arithmetic")
     ctx.rule("R-REG", "decision table of a comparison-only function equals the interval definition on every ordering")
     K.check_block_predicates(ctx, f)
+    K.check_bool_table(ctx, f, "R-REG", "ca::provisioning::RequestResourceLimit::is_empty",
+                       [(r"^Option::is_none\(self\.asn\)$", "asn"), (r"^Option::is_none\(self\.ipv4\)$", "v4"),
+                        (r"^Option::is_none\(self\.ipv6\)$", "v6")],
+                       lambda e: e["asn"] and e["v4"] and e["v6"],
+                       "is true iff no component is present (an explicitly empty component still limits)")
 
     # ---- C03.a canonical-form discipline --------------------------------------
     OC = CH + "OwnedChain"
